@@ -95,6 +95,10 @@ def hyp_search(acc: Acc, prop: str, name: str, shard: int, n_examples: int, body
 
         def test(data):
             if acc.over_budget() and state["best"] is None:
+                # wall-clock budget used up: no further cases (recorded as inconclusive, never a violation).
+                # Returning without drawing makes Hypothesis complain about inconsistent generation; that
+                # complaint is swallowed below when this flag is set.
+                state["budget_stop"] = True
                 return
             if state["best"] is not None and time.time() - state["t_fail"] > shrink_cap_s:
                 # shrinking budget used up: every further candidate is rejected at no cost; the
@@ -125,6 +129,8 @@ def hyp_search(acc: Acc, prop: str, name: str, shard: int, n_examples: int, body
         except _Fail:
             pass
         except Exception as e:  # Flaky / Unsatisfiable after the shrink cap; anything else is a harness bug
+            if state.get("budget_stop") and state["best"] is None:
+                break
             if state["best"] is None or not (state.get("capped") or type(e).__name__.startswith("Flaky")):
                 raise
         if state["best"] is None:
